@@ -126,7 +126,12 @@ def validate(jobs, status, workdir, design=None, workers=NCPU, timeout=300):
     return pmap(one, jobs, workers=workers)
 
 
-_NOT_PIPE = tuple('{"e":"%s"' % e for e in ("Lacon", "Trsv", "GsconBegin", "GsconEnd", "Call", "End"))
+# the events SluPipeTrace knows; everything else in a stream (call records, events of other wrapped routines such as the
+# condition estimator, the refinement loop, triangular solves) is not part of a factorization
+PIPE_EVENTS = ("Loop", "Exit", "Sched", "NewNsuper", "LsubAlloc", "SnPivot", "SnFact", "SnRelease", "Mark", "DfsBegin", "DfsEnd", "Wait", "Climb",
+               "ClimbWait", "BusyUpdBegin", "BusyUpdEnd", "Join", "Pivot", "Release", "UAlloc", "PruneBegin", "PruneEnd", "ColDone", "PanelDone",
+               "LusupAlloc", "DynMap", "JoinAll", "FixupMove", "Wrap", "Result")
+_IS_PIPE = tuple('{"e":"%s"' % e for e in PIPE_EVENTS)
 
 
 def prepare(path):
@@ -152,9 +157,7 @@ def prepare(path):
             cur["sbnd"] = json.loads(ln)
         elif ln.startswith('{"e":"Create"'):
             cur["create"] = ln
-        elif ln.startswith(_NOT_PIPE):
-            continue      # events of other wrapped routines (condition estimation, triangular solves): not part of a factorization
-        else:
+        elif ln.startswith(_IS_PIPE):
             cur["lines"].append(ln)
     outs = []
     for k, sg in enumerate(segs):
